@@ -30,8 +30,8 @@ func (r *Rng) Intn(n int) int {
 	}
 	return int(r.U64() % uint64(n))
 }
-func (r *Rng) Bool() bool         { return r.U64()&1 == 1 }
-func (r *Rng) Chance(p int) bool  { return r.Intn(100) < p }
+func (r *Rng) Bool() bool              { return r.U64()&1 == 1 }
+func (r *Rng) Chance(p int) bool       { return r.Intn(100) < p }
 func (r *Rng) Pick(xs []string) string { return xs[r.Intn(len(xs))] }
 
 func hashString(s string) uint64 {
@@ -44,11 +44,12 @@ func hashString(s string) uint64 {
 }
 
 type GenCtx struct {
-	Rng  *Rng
-	Tier string
-	Repo string
-	Prop string
-	ops  []Op
+	Rng   *Rng
+	Tier  string
+	Repo  string
+	Prop  string
+	ops   []Op
+	pairs []identPair
 }
 
 func (c *GenCtx) thorough() bool { return c.Tier == "thorough" }
@@ -394,8 +395,110 @@ func genRandom(c *GenCtx, family string, n int, depth int) {
 
 // ---------------------------------------------------------------------------------------------
 
+// projection-heavy expressions: chains of wildcards, filters, flattens, slices and selectors
+func genProjections(c *GenCtx, n int) {
+	r := c.Rng
+	heads := []string{"foo", "bar", "@", "*", "[*]", "[]", "a", "foo.bar", "[?a]", "[0:]", "$"}
+	sels := []string{"[*]", "[*]", ".*", "[]", "[?a]", "[?@]", "[0]", "[-1]", "[1:]", "[::2]", ".a", ".b", ".foo", ".bar", ".{k: a}", ".[a, b]", ".k", ".*", "[*]", ".length(@)", ".a.b", "[?b == `1`]", ".keys(@)", ".[*]"}
+	tails := []string{"", "", "", " | [0]", " | [*]", " | length(@)", " || `0`", " == `[]`", " | [0].a", " && foo"}
+	for i := 0; i < n; i++ {
+		e := r.Pick(heads)
+		if e == "foo" || e == "bar" || e == "a" || e == "foo.bar" || e == "$" || e == "@" {
+			// ok as is
+		}
+		k := 1 + r.Intn(4)
+		for j := 0; j < k; j++ {
+			e += r.Pick(sels)
+		}
+		if r.Chance(15) {
+			e = "(" + e + ")" + r.Pick(sels)
+		}
+		e += r.Pick(tails)
+		c.add("proj", e, c.projDoc())
+	}
+}
+
+// documents rich in arrays of objects, nested arrays, nulls and non-containers where containers are expected
+func (c *GenCtx) projDoc() string {
+	r := c.Rng
+	elem := func() string {
+		switch r.Intn(9) {
+		case 0:
+			return "null"
+		case 1:
+			return r.Pick(numPool)
+		case 2:
+			return c.jstr(r.Pick(strPool))
+		case 3:
+			return "[" + c.doc(1) + "," + c.doc(1) + "]"
+		case 4:
+			return `[{"a":` + c.doc(1) + `,"b":1},null,{"a":[1,2],"k":"x"}]`
+		default:
+			return `{"a":` + c.doc(2) + `,"b":` + r.Pick([]string{"1", "null", "[1,null,2]", `{"a":null,"b":2}`}) + `,"k":` + c.jstr(r.Pick(strPool)) + `}`
+		}
+	}
+	arr := func() string {
+		n := r.Intn(5)
+		parts := make([]string, n)
+		for i := range parts {
+			parts[i] = elem()
+		}
+		return "[" + strings.Join(parts, ",") + "]"
+	}
+	return `{"foo":` + r.Pick([]string{arr(), arr(), `{"bar":` + arr() + `,"a":null,"b":` + elem() + `}`, "null", `"str"`}) + `,"bar":` + r.Pick([]string{arr(), `{"a":` + elem() + `,"b":null,"k":` + elem() + `}`, "7"}) +
+		`,"a":` + elem() + `,"b":` + elem() + `,"k":` + elem() + `}`
+}
+
 func generate(c *GenCtx) []Op {
 	switch c.Prop {
+	case "C01":
+		genCorpus(c)
+		genRandom(c, "rand", c.n(15000, 300000), 3)
+		genProjections(c, c.n(25000, 500000))
+	case "C02":
+		genArgs(c)
+	case "C03":
+		genBytes(c)
+		genRandom(c, "rand", c.n(5000, 100000), 3)
+	case "C04":
+		genTokens(c)
+		genLiterals(c)
+	case "C05":
+		genNumbers(c)
+	case "C06":
+		genRandom(c, "rand", c.n(3000, 50000), 2)
+	case "C07":
+		genRandom(c, "rand", c.n(2000, 20000), 2)
+	case "C08":
+		genCorpus(c)
+		genTokens(c)
+		genRandom(c, "rand", c.n(5000, 100000), 3)
+	case "C09":
+		genCost(c)
+	case "C10":
+		genOperators(c)
+	case "C11":
+		genStrings(c)
+	case "C12":
+		genSlices(c)
+	case "C13":
+		genSort(c)
+	case "C14":
+		genRepr(c)
+	case "C15":
+		genCorpus(c)
+		genRandom(c, "rand", c.n(10000, 200000), 3)
+		genProjections(c, c.n(5000, 100000))
+	case "C16":
+		genLiterals(c)
+	case "C17":
+		c.pairs = genIdentities(c)
+	case "C18":
+		genRandom(c, "rand", c.n(5000, 100000), 3)
+	case "C19":
+		genLet(c)
+	case "C20":
+		genEquality(c)
 	default:
 		genCorpus(c)
 		genRandom(c, "rand", c.n(20000, 400000), 3)
@@ -403,7 +506,25 @@ func generate(c *GenCtx) []Op {
 	return c.ops
 }
 
-func judges(c *GenCtx, driver string) []Diff {
+func judges(c *GenCtx, ops []Op, model map[int]string) []Diff {
+	switch c.Prop {
+	case "C06":
+		return judgeHistories(c)
+	case "C07":
+		return judgeConcurrent(c)
+	case "C08":
+		return judgeStatic(c, ops)
+	case "C09":
+		return judgeCost(c, ops)
+	case "C14":
+		return judgeRepr(c, ops)
+	case "C15":
+		return judgeDeterminism(c, ops, model)
+	case "C17":
+		return judgeIdentities(c.pairs)
+	case "C18":
+		return judgeFeedback(c)
+	}
 	return nil
 }
 
